@@ -117,6 +117,16 @@ func vfC02Dial(w *vfWorld, to *net.UDPAddr) (*vfRaw, error) {
 type vfC02Handler struct {
 	mu   sync.Mutex
 	hits map[string]int // remote address (= raw client tag) -> requests served
+	// mode "gate" (overlap part only): the request is held inside the handler until gate is closed
+	gate    chan struct{}
+	entered map[string]int // remote address -> requests currently/ever held at the gate
+}
+
+// gateEntered reports how many "gate" requests of that client have reached the handler.
+func (h *vfC02Handler) gateEntered(remote string) int {
+	h.mu.Lock()
+	defer h.mu.Unlock()
+	return h.entered[remote]
 }
 
 func vfC02Pattern(id string, n int) []byte {
@@ -166,6 +176,25 @@ func (h *vfC02Handler) ServeHTTP(w http.ResponseWriter, r *http.Request) {
 		if code != 204 && code != 304 {
 			_, _ = io.WriteString(w, "status "+mode[3:]+"\n"+echo)
 		}
+	case mode == "gate":
+		// a slow web application / reverse proxy with a slow upstream: answers only when released
+		h.mu.Lock()
+		if h.entered == nil {
+			h.entered = map[string]int{}
+		}
+		h.entered[r.RemoteAddr]++
+		g := h.gate
+		h.mu.Unlock()
+		if g != nil {
+			select {
+			case <-g:
+			case <-r.Context().Done():
+				return
+			}
+		}
+		hd.Set("Content-Type", "text/vf-gated")
+		w.WriteHeader(200)
+		_, _ = io.WriteString(w, "released\n"+echo)
 	case mode == "empty":
 		hd.Set("Content-Length", "0")
 		w.WriteHeader(200)
@@ -643,8 +672,14 @@ func vfC02DoRequest(k *vfKit, w *vfWorld, c vfC02Case, st *vfC02ConnState, q *vf
 	}
 	k.Nontrivial(fmt.Sprintf("%v|%v|%s|%s|%s|%s|%s|%d", c.Custom, acceptedBefore, q.Method, q.Host, q.Path, q.HS, q.Mode, q.BodyN))
 
+	vfC02CompareResp(k, desc, wit, q, hyR, refR, st.probed)
+}
+
+// vfC02CompareResp is the oracle for one request that is not an accepted authentication
+// request: the Hysteria server's response must be what the plain web server gave.
+func vfC02CompareResp(k *vfKit, desc string, wit func(map[string]any) map[string]any, q *vfC02Req, hyR, refR vfResp, probed bool) {
 	if hyR.Err != nil {
-		if st.probed {
+		if probed {
 			// the reaction of either server to an unauthenticated 0x401 stream is not demanded
 			k.Count("request_failed_after_unauth_probe", 1)
 			return
@@ -822,4 +857,341 @@ func TestVerifC02Scripts(t *testing.T) {
 		}
 		vfC02Run(t, k, c)
 	}
+}
+
+// ---------------------------------------------------------------- overlapping requests (real time)
+
+// TestVerifC02Overlap: requests that OVERLAP on one unauthenticated connection. A POST
+// hysteria/auth with credentials that are going to be rejected is kept pending — (a) inside
+// the authenticator (fake holds it: slow authentication backend) or (b) inside the custom
+// masquerade handler that answers the rejected request (gate: slow web application / upstream)
+// — and meanwhile 1..3 ordinary / near-miss requests are sent on the SAME connection. A web
+// server answers those independently of the pending one, so the Hysteria server must too:
+// they must be answered, with the reference server's answer, while the auth request is still
+// pending.
+//
+// This cannot run in a bubble (a request waiting on a mutex of the server is not durably
+// blocked, virtual time would freeze), so it runs on simnet in real time. Real time only
+// orchestrates; "not answered while pending" is decided on a LOGICAL clock: after the
+// overlapping requests have been fired, K sequential request/response round trips are made
+// on a second, untouched connection to the Hysteria server and on one to the reference
+// server. If all of them completed (twice over), the pending request is still pending, the
+// reference server has answered the twin of the overlapping request and the Hysteria server
+// has not, the request is stalled behind the pending auth. Real-time watchdogs only yield
+// inconclusive.
+func TestVerifC02Overlap(t *testing.T) {
+	k := vfNewKit(t, "C02", "c02-overlap")
+	defer k.Finish()
+	n := k.N(24, 400)
+	for i := 0; i < n; i++ {
+		caseID := fmt.Sprintf("c02o-%d", i)
+		if rc := k.ReplayCase(); rc != "" && rc != caseID {
+			continue
+		}
+		vfC02OverlapRun(t, k, caseID, i)
+	}
+}
+
+type vfC02OverlapCase struct {
+	CaseID    string      `json:"case_id"`
+	Variant   string      `json:"variant"` // auth_hold | masq_hold
+	Custom    bool        `json:"custom_handler"`
+	LatencyMs int         `json:"latency_ms"`
+	Pending   *vfC02Req   `json:"pending"`
+	PendCred  string      `json:"pending_credential"`
+	Overlap   []*vfC02Req `json:"overlapping"`
+	RoundTrip int         `json:"logical_clock_round_trips"`
+}
+
+var vfC02SmallModes = []string{"echo", "st:201", "st:204", "st:301", "st:404", "st:405", "st:503", "empty", "nowrite", "big:1200", "flush", "reqbody", "redirect", "notfound"}
+
+func vfC02OverlapRun(t *testing.T, k *vfKit, caseID string, idx int) {
+	const watchdog = 30 * time.Second
+	r := k.Rand(caseID)
+	c := vfC02OverlapCase{CaseID: caseID, LatencyMs: 1 + r.Intn(2), RoundTrip: 40}
+	c.Variant = []string{"auth_hold", "masq_hold"}[idx%2]
+	c.Custom = c.Variant == "masq_hold" || r.Intn(2) == 0
+	c.Pending = &vfC02Req{ID: "pend", Method: "POST", Host: "hysteria", Path: "/auth", HS: "auth_full_bad", BodyN: -1}
+	c.PendCred = "bad-pend-" + caseID
+	c.Pending.Mode = vfC02SmallModes[r.Intn(len(vfC02SmallModes))]
+	if c.Variant == "auth_hold" {
+		c.PendCred = "hold:" + c.PendCred
+	} else {
+		c.Pending.Mode = "gate"
+	}
+	for j, nov := 0, 1+r.Intn(3); j < nov; j++ {
+		q := vfC02GenReq(r, fmt.Sprintf("ov%d", j))
+		if q.exact() {
+			q.Method = "GET" // a second auth-shaped request may legitimately wait for the first
+		}
+		q.Mode = vfC02SmallModes[r.Intn(len(vfC02SmallModes))]
+		if q.BodyN > 3000 {
+			q.BodyN = 3000
+		}
+		c.Overlap = append(c.Overlap, q)
+	}
+	if idx < 4 {
+		k.Sample(c)
+	}
+
+	var masq http.Handler
+	var refH http.Handler = http.HandlerFunc(http.NotFound)
+	var app *vfC02Handler
+	gate := make(chan struct{})
+	gateOpen := false
+	openGate := func() {
+		if !gateOpen {
+			gateOpen = true
+			close(gate)
+		}
+	}
+	if c.Custom {
+		app = &vfC02Handler{hits: map[string]int{}, gate: gate, entered: map[string]int{}}
+		masq, refH = app, app
+	}
+	w, err := vfNewWorld(vfServerOpts{
+		Latency: time.Duration(c.LatencyMs) * time.Millisecond,
+		Config:  func(sc *server.Config) { sc.MasqHandler = masq },
+	})
+	if err != nil {
+		t.Fatalf("harness: server: %v", err)
+	}
+	defer w.Close()
+	defer openGate()
+	ref, err := vfC02StartRef(w, refH)
+	if err != nil {
+		t.Fatalf("harness: reference server: %v", err)
+	}
+	w.onClose(ref.Close)
+	dial := func(to *net.UDPAddr) *vfRaw {
+		x, err := vfC02Dial(w, to)
+		if err != nil {
+			t.Fatalf("harness: dial: %v", err)
+		}
+		return x
+	}
+	hyA, refA := dial(w.ServerAddr), dial(ref.Addr) // the connection under test and its twin
+	hyB, refB := dial(w.ServerAddr), dial(ref.Addr) // untouched connections: the logical clock
+
+	rep := func(extra map[string]any) map[string]any {
+		m := map[string]any{"case_id": c.CaseID, "case": c, "tag": hyA.Tag}
+		for a, b := range extra {
+			m[a] = b
+		}
+		return m
+	}
+	send := func(x *vfRaw, q *vfC02Req, cred string) chan vfResp {
+		ch := make(chan vfResp, 1)
+		h := q.headers()
+		if cred != "" {
+			h.Set("Hysteria-Auth", cred)
+		}
+		go func() { ch <- x.Do(q.Method, q.Host, q.Path, h, q.body()) }()
+		return ch
+	}
+	try := func(ch chan vfResp) (vfResp, bool) {
+		select {
+		case x := <-ch:
+			return x, true
+		default:
+			return vfResp{}, false
+		}
+	}
+	wait := func(ch chan vfResp) (vfResp, bool) {
+		select {
+		case x := <-ch:
+			return x, true
+		case <-time.After(watchdog):
+			return vfResp{}, false
+		}
+	}
+
+	// 1. the auth request that is going to be rejected, and is kept pending
+	hyPend, refPend := send(hyA, c.Pending, c.PendCred), send(refA, c.Pending, c.PendCred)
+	pendingNow := func() bool { // orchestration only: has the request reached the place where it is held?
+		if c.Variant == "masq_hold" {
+			return app.gateEntered(hyA.Tag) > 0
+		}
+		for _, e := range w.Log.Snapshot() {
+			if e.Kind == "auth_held" && e.Tag == hyA.Tag {
+				return true
+			}
+		}
+		return false
+	}
+	held := false
+	for spin := 0; spin < 10000 && !held; spin++ {
+		if held = pendingNow(); !held {
+			time.Sleep(time.Millisecond)
+		}
+	}
+	if !held {
+		k.Eval()
+		k.Inconclusive(caseID + ": the auth request never reached the " + c.Variant + " point (overlap not achieved)")
+		return
+	}
+
+	// 2. overlapping requests on the same connection (and on the twin)
+	hyOv, refOv := make([]chan vfResp, len(c.Overlap)), make([]chan vfResp, len(c.Overlap))
+	for j, q := range c.Overlap {
+		hyOv[j], refOv[j] = send(hyA, q, ""), send(refA, q, "")
+	}
+
+	// 3. logical clock: K sequential round trips on untouched connections, on both servers
+	clock := func() bool {
+		type res struct{ ok bool }
+		tick := func(x *vfRaw, tag string) chan res {
+			ch := make(chan res, 1)
+			go func() {
+				for i := 0; i < c.RoundTrip; i++ {
+					rr := x.Do("GET", "example.com", fmt.Sprintf("/clock/%s/%d", tag, i), http.Header{"X-Vf-Mode": {"echo"}, "X-Vf-Id": {"clock"}}, nil)
+					if rr.Err != nil {
+						ch <- res{false}
+						return
+					}
+				}
+				ch <- res{true}
+			}()
+			return ch
+		}
+		a, b := tick(hyB, "hy"), tick(refB, "ref")
+		for _, ch := range []chan res{a, b} {
+			select {
+			case x := <-ch:
+				if !x.ok {
+					return false
+				}
+			case <-time.After(watchdog):
+				return false
+			}
+		}
+		k.Count("ev_clock_round_trips", int64(2*c.RoundTrip))
+		return true
+	}
+	if !clock() {
+		k.Eval()
+		k.Inconclusive(caseID + ": logical-clock connection failed or hit the real-time watchdog")
+		return
+	}
+
+	// 4. verdict on the logical clock, while the auth request is still pending
+	type ovState struct {
+		hy, ref       vfResp
+		hyOK, refOK   bool
+		answeredEarly bool
+	}
+	ov := make([]ovState, len(c.Overlap))
+	check := func() (stalled []int) {
+		for j := range c.Overlap {
+			if !ov[j].hyOK {
+				ov[j].hy, ov[j].hyOK = try(hyOv[j])
+			}
+			if !ov[j].refOK {
+				ov[j].ref, ov[j].refOK = try(refOv[j])
+			}
+			if ov[j].refOK && !ov[j].hyOK {
+				stalled = append(stalled, j)
+			}
+		}
+		return
+	}
+	stalled := check()
+	if len(stalled) > 0 { // give it the same amount of logical time again before calling it stalled
+		if !clock() {
+			k.Eval()
+			k.Inconclusive(caseID + ": logical-clock connection failed on the confirmation pass")
+			return
+		}
+		stalled = check()
+	}
+	pendR, pendDone := try(hyPend)
+	stillPending := !pendDone
+	for j := range ov {
+		ov[j].answeredEarly = ov[j].hyOK
+	}
+	if stillPending {
+		k.Count("ev_overlap_achieved", 1)
+		for _, j := range stalled {
+			q := c.Overlap[j]
+			k.Violation("server:request-stalled-behind-pending-auth", rep(map[string]any{"request": q, "reference": vfC02RespSummary(ov[j].ref)}),
+				"%s https://%s%s [%s] sent on an unauthenticated connection while a POST hysteria/auth with rejected credentials was pending (%s): the plain web server answered %d, the Hysteria server gave no response during %d request/response round trips on another connection; the pending request was then still unanswered",
+				q.Method, q.Host, q.Path, q.HS, c.Variant, ov[j].ref.Status, 2*c.RoundTrip)
+		}
+	} else {
+		k.Count("overlap_lost_pending_request_returned_early", 1)
+	}
+
+	// 5. release, collect everything
+	if c.Variant == "auth_hold" {
+		w.Auth.Release(hyA.Tag)
+	}
+	openGate()
+	if !pendDone {
+		pendR, pendDone = wait(hyPend)
+	}
+	refPendR, refPendDone := wait(refPend)
+	for j := range ov {
+		if !ov[j].hyOK {
+			ov[j].hy, ov[j].hyOK = wait(hyOv[j])
+		}
+		if !ov[j].refOK {
+			ov[j].ref, ov[j].refOK = wait(refOv[j])
+		}
+	}
+	time.Sleep(20 * time.Millisecond) // orchestration: let late log entries land
+	evs := w.Log.Snapshot()
+
+	// authenticator census: exactly the pending request was evaluated, nothing accepted
+	calls, oks := 0, 0
+	for _, e := range evs {
+		if e.Tag != hyA.Tag && e.Tag != hyB.Tag {
+			continue
+		}
+		switch e.Kind {
+		case "auth_call":
+			calls++
+			if a, _ := e.F["auth"].(string); e.Tag != hyA.Tag || a != c.PendCred {
+				k.Violation("server:authenticator-consulted-for-near-miss", rep(map[string]any{"event": e}),
+					"authenticator called with %q for connection %s although only the pending POST hysteria/auth (credential %q on %s) is an auth request", a, e.Tag, c.PendCred, hyA.Tag)
+			}
+		case "auth_ok":
+			oks++
+		}
+	}
+	if oks > 0 {
+		return // cannot happen with these credentials; then nothing here is an unauthenticated request
+	}
+
+	compare := func(q *vfC02Req, hy, rf vfResp, hyOK, rfOK bool, what string) {
+		k.Eval()
+		if !hyOK || !rfOK {
+			k.Inconclusive(fmt.Sprintf("%s: %s not answered within the %v real-time watchdog after release (hysteria answered: %v, reference answered: %v)", caseID, what, watchdog, hyOK, rfOK))
+			return
+		}
+		if rf.Err != nil {
+			k.Inconclusive(fmt.Sprintf("%s: reference server gave no response to %s: %v", caseID, what, rf.Err))
+			return
+		}
+		k.Count("ev_compared", 1)
+		k.Nontrivial(fmt.Sprintf("overlap|%s|%v|%s|%s|%s|%s|%s|%s", c.Variant, c.Custom, what, q.Method, q.Host, q.Path, q.HS, q.Mode))
+		desc := fmt.Sprintf("%s https://%s%s [%s, handler %v, mode %s, %s, overlap case %s]", q.Method, q.Host, q.Path, q.HS, c.Custom, q.Mode, what, c.Variant)
+		wit := func(extra map[string]any) map[string]any {
+			m := rep(map[string]any{"request": q, "hysteria": vfC02RespSummary(hy), "reference": vfC02RespSummary(rf)})
+			for a, b := range extra {
+				m[a] = b
+			}
+			return m
+		}
+		vfC02CompareResp(k, desc, wit, q, hy, rf, false)
+	}
+	for j, q := range c.Overlap {
+		if ov[j].answeredEarly && stillPending {
+			k.Count("ev_overlap_answered_while_pending", 1)
+		}
+		compare(q, ov[j].hy, ov[j].ref, ov[j].hyOK, ov[j].refOK, fmt.Sprintf("request %d overlapping the pending auth", j))
+	}
+	if calls > 0 {
+		k.Count("ev_compared_auth_rejected", 1)
+	}
+	compare(c.Pending, pendR, refPendR, pendDone, refPendDone, "the pending rejected auth request")
 }
